@@ -117,7 +117,8 @@ SchemaOf(ctx, dir, T, cons, seen) ==
          << <<"oneOf", [i \in DOMAIN T.alts |-> SchemaOf(ctx, dir, T.alts[i], cons, seen)]>>,
             <<"discriminator", Ali(ctx, T.alias)>> >>
     [] T.k = "obj"     ->
-         IF T.cls \in seen THEN << <<"$ref", T.cls>> >>
+         \* the constraints met on the way stay next to the reference
+         IF T.cls \in seen THEN MergeCons(<< <<"$ref", T.cls>> >>, cons)
          ELSE MergeCons(ObjSchema(ctx, dir, T.cls, seen \cup {T.cls}), cons)
 
 \* required-ness of a field in the serialization schema: not ObjectField.skippable under the
